@@ -1,6 +1,7 @@
 import QipVerif.Util.GateIO
 import QipVerif.Gen.GateDefsF
 import QipVerif.Model.Ctrl
+import QipVerif.Gen.GateCtor
 /-! Driver for the exact gate library and exact denotation (C09, C01, C03 share it).
 
 * `gate name=NAME n8=K`          → `ok m e|rows` exact compact matrix of the gate with angle K·π/8
@@ -12,6 +13,13 @@ import QipVerif.Model.Ctrl
                                     single-qubit U; an argument `A` is `s:3` (a bare integer) or `l:0,2` (a list);
                                     rows of the 2^K × 2^K result, one letter per element: z = 0, o = 1,
                                     a b c d = U[0][0] U[0][1] U[1][0] U[1][1]
+* `ctor key=K path=class|circuit ts=Q cs=Q arg=A cv=V`
+                                  → `err <refusal>` | `ok ts=<l|N> cs=<l|N> cv=<v|N> <compact>`: the model of the constructor
+                                    chain of the gate class `K` of `Gen.G.ctorTable` (Model/GateCtor.lean) and of its
+                                    `get_compact_qobj`; `Q` is `-` (absent), `N` (None), `s:3`, `l:0,2`; `A` is `-`, `N`, `s`
+                                    (a number), `l3` (a list of 3 numbers); `V` is `-`, `N` or an integer;
+                                    `<compact>` is `plain` (the class's matrix function at arg_value), `block K rows`
+                                    (as for `ctrl`, U = the target gate's matrix) or `cerr <kind>`
 -/
 open QipVerif QipVerif.Proto QipVerif.GateIO
 
@@ -29,6 +37,56 @@ def ctrlErr : Ctrl.CErr → String
   | .lenOfInt => "lenOfInt" | .nested => "nested" | .blockIndex => "blockIndex"
   | .embed .count => "count" | .embed .range => "range" | .embed .dims => "dims" | .embed .index => "index"
   | .embed .permute => "permute"
+
+def qArg? (s : String) : Option GateCtor.QArg :=
+  if s == "-" then some .absent else if s == "N" then some .none
+  else if s.startsWith "s:" then ((s.drop 2).toString.toInt?).map GateCtor.QArg.scalar
+  else if s.startsWith "l:" then (intList? (s.drop 2).toString).map GateCtor.QArg.list
+  else none
+
+def aArg? (s : String) : Option GateCtor.AArg :=
+  if s == "-" then some .absent else if s == "N" then some .none else if s == "s" then some .scalar
+  else if s.startsWith "l" then ((s.drop 1).toString.toNat?).map GateCtor.AArg.list
+  else none
+
+def vArg? (s : String) : Option GateCtor.VArg :=
+  if s == "-" then some .absent else if s == "N" then some .none else s.toInt?.map GateCtor.VArg.int
+
+def refusalStr : GateCtor.Refusal → String
+  | .missingArg => "missingArg" | .cvRefused => "cvRefused" | .oneTarget => "oneTarget" | .noControl => "noControl"
+  | .twoQubits => "twoQubits" | .concatNone => "concatNone" | .tgOneTarget => "tgOneTarget" | .controlsNone => "controlsNone"
+
+def optList : Option (List Int) → String
+  | none => "N"
+  | some l => "l:" ++ showInts l
+
+def ctorStep (fs : List String) : String :=
+  match fStr? fs "key", fStr? fs "path", (fStr? fs "ts").bind qArg?, (fStr? fs "cs").bind qArg?, (fStr? fs "arg").bind aArg?,
+      (fStr? fs "cv").bind vArg? with
+  | some key, some path, some ts, some cs, some arg, some cv =>
+    match Gen.G.ctorTable.find? (fun e => e.key == key) with
+    | none => "err unknownKey"
+    | some e =>
+      let r0 : GateCtor.Req := ⟨ts, cs, arg, cv⟩
+      let r := if path == "circuit" then r0.viaCircuit else r0
+      match GateCtor.construct Gen.G.ctorPolicy e r with
+      | .error x => "err " ++ refusalStr x
+      | .ok o =>
+        let head := s!"ok ts={optList o.targets} cs={optList o.controls} cv={match o.cv with | none => "N" | some v => toString v} "
+        match GateCtor.compact (if Gen.GF.ctrlCompatTest == "controls" then .controls else .targets) e r o with
+        | .error .argType => head ++ "cerr argType"
+        | .error .argCount => head ++ "cerr argCount"
+        | .error .cvNone => head ++ "cerr cvNone"
+        | .error .fixedCV => head ++ "cerr fixedCV"
+        | .error (.ctrl x) => head ++ "cerr " ++ ctrlErr x
+        | .ok .plain => head ++ "plain"
+        | .ok (.block res) =>
+          let dims := List.replicate res.K 2
+          let n := 2 ^ res.K
+          let rows := (List.range n).map fun X =>
+            String.ofList ((List.range n).map fun Y => entChar (res.entry (Embed.digits dims X) (Embed.digits dims Y)))
+          head ++ s!"block {res.K} " ++ ";".intercalate rows
+  | _, _, _, _, _, _ => "bad-op"
 
 def step (line : String) : String :=
   let fs := fields line
@@ -70,6 +128,7 @@ def step (line : String) : String :=
             String.ofList ((List.range n).map fun Y => entChar (r.entry (Embed.digits dims X) (Embed.digits dims Y)))
           s!"ok {r.K} " ++ ";".intercalate rows
     | _, _, _, _ => "bad-op"
+  | some "ctor" => ctorStep fs
   | _ => "bad-op"
 
 def main : IO Unit := serve step
